@@ -11,7 +11,7 @@ from harness.common import Check, seed
 
 A = {'a11': '127.0.0.11', 'a12': '127.0.0.12', 'a110': '127.0.0.110'}
 RID = {'r1': '1.1.1.1', 'r2': '2.2.2.2'}
-ROUTE = {'p1': '10.1.0.0/24', 'p2': '10.2.0.0/24', 'p3': '10.3.0.0/24', 'p4': '10.4.0.0/24', 'p5': '10.5.0.0/24', 'p6': '10.6.0.0/24', 'p7': '10.7.0.0/24', 'p8': '10.8.0.0/24'}
+ROUTE = {'p1': '10.1.0.0/24', 'p2': '10.2.0.0/24', 'p3': '10.3.0.0/24', 'p4': '10.4.0.0/24', 'p5': '10.5.0.0/24', 'p6': '10.6.0.0/24', 'p7': '10.7.0.0/24', 'p8': '10.8.0.0/24', 'p9': '10.9.0.0/24', 'p10': '10.10.0.0/24'}
 
 # command id -> text, per API version (v6: `peer <selector> ...`; v4: `neighbor <selector> ...`)
 V6 = {
@@ -27,6 +27,7 @@ V6 = {
     'bogus': 'bogus command that does not exist',
     'badrt': 'peer * announce route 10.7.0.0/24 next-hop',
     'badval': 'peer * announce route 10.8.0.0/24 next-hop 1.2.3.4 med 4294967296',
+    'halfbad': 'peer * announce route 10.9.0.0/24 next-hop 1.2.3.4 ; route 10.10.0.0/24',
 }
 V4 = {
     'all': 'announce route 10.1.0.0/24 next-hop 1.2.3.4',
@@ -41,6 +42,7 @@ V4 = {
     'bogus': 'bogus command that does not exist',
     'badrt': 'announce route 10.7.0.0/24 next-hop',
     'badval': 'announce route 10.8.0.0/24 next-hop 1.2.3.4 med 4294967296',
+    'halfbad': 'announce route 10.9.0.0/24 next-hop 1.2.3.4 ; route 10.10.0.0/24',
 }
 PFX2P = {v: k for k, v in ROUTE.items()}
 
